@@ -147,4 +147,58 @@ def step' (s : St) (line : String) : St × String :=
     | _, _, _ => bad
   | _ => bad
 
-def main : IO Unit := run step' { blk := newBlock 0 0 none, now := 0 }
+/-! Client-level lines (see harness/cmd/c21/client.go): `c*` ops are executed by the real ipamClient only
+(answer `client`); every block write they cause is replayed here as
+`xload <n> <now> A=.. U=.. T=.. S=.. Q=..` ; `xgc` ; `x<op>` ; `xbump` ; `xstate`. -/
+
+def parseOptIdx (cs : List Char) : Option (Option Nat) :=
+  if cs == ['-'] then some none else (natOf cs).map some
+
+def parseCommaList {α : Type} (f : List Char → Option α) (cs : List Char) (sep : Char) : Option (List α) :=
+  if cs.isEmpty then some [] else (splitC sep cs).mapM f
+
+def parseAttr (cs : List Char) : Option Attr :=
+  match splitC '/' cs with
+  | [h, o, r] =>
+    match parseH h, natOf o, parseOptIdx r with
+    | some h, some o, some r => some { handle := h, owner := o, releasedAt := r }
+    | _, _, _ => none
+  | _ => none
+
+def parseQ (n : Nat) (cs : List Char) : Option (List (Option Nat)) :=
+  match parseCommaList (fun p => match splitC ':' p with
+      | [o, s] => (match natOf o, natOf s with | some o, some s => some (o, s) | _, _ => none)
+      | _ => none) cs ',' with
+  | some ps => some (ps.foldl (fun l (p : Nat × Nat) => l.set p.1 (some p.2)) (List.replicate n none))
+  | none => none
+
+def field (pre : String) (w : String) : Option (List Char) :=
+  if w.startsWith pre then some (w.toList.drop pre.length) else none
+
+def parseLoad (ws : List String) : Option St :=
+  match ws with
+  | [n, now, a, u, t, q, qq] =>
+    match n.toNat?, now.toNat?, field "A=" a, field "U=" u, field "T=" t, field "S=" q, field "Q=" qq with
+    | some n, some now, some a, some u, some t, some q, some qq =>
+      match parseCommaList parseOptIdx a ',', parseCommaList natOf u ',', parseCommaList parseAttr t ';', natOf q, parseQ n qq with
+      | some a, some u, some t, some q, some qq =>
+        some { blk := { n := n, allocs := a, unalloc := u, attrs := t, seq := q, seqFor := qq }, now := now }
+      | _, _, _, _, _ => none
+    | _, _, _, _, _, _, _ => none
+  | _ => none
+
+def step'' (s : St) (line : String) : St × String :=
+  match words line with
+  | "xload" :: rest => match parseLoad rest with
+    | some s' => (s', "-")
+    | none => (s, "bad-op")
+  | ["xstate"] => (s, dump s.blk)
+  | w :: rest =>
+    if w.startsWith "c" then (s, "client")
+    else if w.startsWith "x" then
+      let r := step' s (" ".intercalate ((String.ofList (w.toList.drop 1)) :: rest))
+      (r.1, if r.2 == "bad-op" then "bad-op" else "-")
+    else step' s line
+  | [] => (s, "bad-op")
+
+def main : IO Unit := run step'' { blk := newBlock 0 0 none, now := 0 }
